@@ -246,3 +246,79 @@ def kf_c11_float_grid(case, o, kind, cfg, consts):
         import props; _float_table = props.c11_load_float_table()
     import props
     return kind in C11_KINDS + ('order-dependent',) and any(d.conv in 'fFeEgG' and props.c11_float_key(d) in _float_table for d in _c11_dirs(case))
+
+# ---------------------------------------------------------------- C10 (query functions)
+def _sg32(x): return x - (1 << 32) if x >= 1 << 31 else x
+@pred
+def kf_c10_cmp_reads_element_dmax(case, o, kind, cfg, consts):
+    # the loop stops when dmax (or smax / count) is used up, then "*resultp = *dest - *src" reads the NEXT pair:
+    # operands equal over the window, result taken from element [n]
+    m = case.meta; f = case.func
+    if kind != 'wrong-sign' or f not in ('strcmp_s', 'strcasecmp_s', 'wcscmp_s', 'wcsncmp_s'): return False
+    d, s = m['d'], m['s']; n = m['dmax']
+    if f in ('wcscmp_s', 'wcsncmp_s'): n = min(n, m['smax'])
+    if f == 'wcsncmp_s': return False
+    up = (lambda l: [x - 32 if 0x61 <= x <= 0x7a else x for x in l]) if f == 'strcasecmp_s' else (lambda l: l)
+    return up(d[:n]) == up(s[:n]) and (len(d) > n or len(s) > n) and min(len(d), len(s)) >= n
+@pred
+def kf_c10_wcsncmp_ignores_count(case, o, kind, cfg, consts):
+    # wcsncmp_s: same element-[n] read, with n the smallest of dmax, smax and count
+    m = case.meta
+    if kind != 'wrong-sign' or case.func != 'wcsncmp_s': return False
+    n = min(m['dmax'], m['smax'], case.args[4]); d, s = m['d'], m['s']
+    return d[:n] == s[:n]
+@pred
+def kf_c10_strcmp_signed_char(case, o, kind, cfg, consts):
+    # strcmp_s subtracts plain (signed) chars: a byte >= 0x80 compares below ASCII
+    m = case.meta
+    if kind != 'wrong-sign' or case.func != 'strcmp_s': return False
+    d, s = m['d'] + [0], m['s'] + [0]
+    for a, b in zip(d, s):
+        if a != b: return (a >= 128) != (b >= 128)
+    return False
+@pred
+def kf_c10_wide_difference_overflow(case, o, kind, cfg, consts):
+    # wcscmp_s / wcsncmp_s / memcmp32_s return the wrapped difference of two 32-bit values
+    m = case.meta; f = case.func
+    if kind != 'wrong-sign' or f not in ('wcscmp_s', 'wcsncmp_s', 'memcmp32_s'): return False
+    if f == 'memcmp32_s':
+        import fam_copy
+        a = fam_copy.dec(bytes(m['a']), 4); b = fam_copy.dec(bytes(m['b']), 4)
+        for x, y in zip(a, b):
+            if x != y: return abs(x - y) >= 1 << 31
+        return False
+    for x, y in zip(m['d'] + [0], m['s'] + [0]):
+        if x != y: return abs(_sg32(x) - _sg32(y)) >= 1 << 31
+    return False
+@pred
+def kf_c10_strchr_index_dmax(case, o, kind, cfg, consts):
+    # strchr_s: "(*resultp - dest) > dmax" lets a match AT index dmax through
+    m = case.meta
+    if case.func != 'strchr_s' or kind != 'wrong-code' or o.ret != '0': return False
+    hay = m['d'] + [0]; ch = m['ch'] & 0xff
+    return ch in hay and hay.index(ch) == m['dmax']
+@pred
+def kf_c10_strpbrk_slen(case, o, kind, cfg, consts):
+    # strpbrk_s: the inner loop looks at slen+1 characters of src and gives up on the whole search when slen runs out first
+    m = case.meta
+    return case.func == 'strpbrk_s' and kind in ('wrong-code', 'wrong-position') and m['slen'] < len(m['s'])
+@pred
+def kf_c10_stris_ignore_dmax(case, o, kind, cfg, consts):
+    # strisdigit_s, strisuppercase_s, strismixedcase_s: "while (*dest)" never tests dmax
+    m = case.meta
+    return case.func in ('strisdigit_s', 'strisuppercase_s', 'strismixedcase_s') and kind == 'wrong-answer' and m['dmax'] < len(m['d'])
+
+# ---------------------------------------------------------------- C02 (query functions, declared extents)
+C02_DEREF_FIRST = {'dest': ['strcasecmp_s', 'strcasestr_s', 'strchr_s', 'strcmp_s', 'strcspn_s', 'strfirstchar_s', 'strfirstdiff_s', 'strfirstsame_s', 'strisalphanumeric_s', 'strisascii_s',
+                            'strisdigit_s', 'strishex_s', 'strislowercase_s', 'strismixedcase_s', 'strisuppercase_s', 'strlastchar_s', 'strlastdiff_s', 'strlastsame_s', 'strpbrk_s', 'strspn_s',
+                            'strstr_s', 'wcscmp_s', 'wcsncmp_s', 'wcsstr_s'],
+                   'src': ['strcasestr_s', 'strcspn_s', 'strpbrk_s', 'strspn_s', 'strstr_s']}
+@pred
+def kf_c02_query_derefs_element_n(case, o, kind, cfg, consts):
+    # loops of the form "while (*dest && dmax)" (or a read after the loop): the element at index dmax / slen is dereferenced
+    m = case.meta
+    if m.get('cls') != 'query-extent' or kind != 'fault': return False
+    unit = 4 if case.func.startswith('wcs') else 1
+    for which, blk in (('dest', 1), ('src', 2)):
+        if case.func in C02_DEREF_FIRST[which] and o.fault == '%d:%d' % (blk, len(case.blocks[blk][1])) and len(case.blocks[blk][1]) == m['n'] * unit: return True
+    return False
